@@ -63,6 +63,21 @@ pub use mediasan_common::{Report, SeekSkipAdapter, Skip};
 /// Maximum file length as permitted by WebP.
 pub const MAX_FILE_LEN: u32 = u32::MAX - 2;
 
+/// Verification hook: capacity of the bit buffer used when sanitizing lossless image data (default 4096).
+#[cfg(signalapp_mp4san_verif)]
+static VERIF_BITBUF_CAPACITY: std::sync::atomic::AtomicUsize = std::sync::atomic::AtomicUsize::new(4096);
+
+/// Verification hook: override the capacity of the bit buffer used when sanitizing lossless image data.
+#[cfg(signalapp_mp4san_verif)]
+pub fn verif_set_bitbuf_capacity(capacity: usize) {
+    VERIF_BITBUF_CAPACITY.store(capacity, std::sync::atomic::Ordering::SeqCst);
+}
+
+#[cfg(signalapp_mp4san_verif)]
+pub(crate) fn verif_bitbuf_capacity() -> usize {
+    VERIF_BITBUF_CAPACITY.load(std::sync::atomic::Ordering::SeqCst)
+}
+
 //
 // private types
 //
